@@ -115,6 +115,9 @@ def run(ctx):
                     break
     ctx.sample({'formats_en': R.offered('en'), 'formats_ja': R.offered('ja')})
     ctx.traces = ctx.evaluations
+    # every offered format through the command line itself (option parsing, print_)
+    import cli_common
+    cli_common.cli_suite(ctx, ctx.budget(30, 300), formats=R.offered('en') + ['ja'])
     common.conclude(ctx)
 
 
